@@ -43,7 +43,7 @@ Proof.
 Qed.
 
 Lemma prune_idempotent m h : prune (prune m h) h = prune m h.
-Proof. apply prune_from_idem. Qed.
+Proof. unfold prune. rewrite prune_from_best. apply prune_from_idem. Qed.
 
 (** MinReorgIndex: [best = t :: mid ++ rest], every block of [mid] (the blocks below the
     tip) still has its body, the first block of [rest] does not, and the answer is the
@@ -84,11 +84,14 @@ Proof.
 Qed.
 
 (** ** What exactly a prune removes *)
-(** [x] is removed by [prune m h]: it is the best-chain block at some height [i < h] and
+(** [x] is removed by a prune walk starting below height [h]: it is the best-chain block at some height [i < h] and
     every best-chain block at heights [i .. h-1] exists and still has its body. *)
-Definition pruned_by (m : mgr) (h : N) (x : N) : Prop :=
+Definition pruned_at (m : mgr) (h : N) (x : N) : Prop :=
   ∃ i, i < h ∧ best_at m i = Some x ∧
        ∀ j, i ≤ j < h → ∃ y, best_at m j = Some y ∧ has_body m y = true.
+(** PruneBlocks clamps the height to tip height + 1 (= length of the best chain) *)
+Definition pruned_by (m : mgr) (h : N) (x : N) : Prop :=
+  pruned_at m (N.min h (N.of_nat (length (best m)))) x.
 
 Section P.
   Context (U : universe) (HWF : WF U).
@@ -120,22 +123,24 @@ Section P.
     rewrite <- Hi. f_equal. lia.
   Qed.
 
-  Lemma pruned_by_ht m h x : MInv U m → pruned_by m h x → x ∈ best m ∧ ht U x < h.
+  Lemma pruned_at_ht m h x : MInv U m → pruned_at m h x → x ∈ best m ∧ ht U x < h.
   Proof.
     intros HI (i & Hi & Hx & _). split; [by eapply best_at_elem|].
     by rewrite (best_at_ht m i x HI Hx).
   Qed.
+  Lemma pruned_by_ht m h x : MInv U m → pruned_by m h x → x ∈ best m ∧ ht U x < h.
+  Proof. intros HI Hp. destruct (pruned_at_ht _ _ _ HI Hp). split; [done|lia]. Qed.
 
   Lemma prune_from_spec n : ∀ m, MInv U m → ∀ x,
-    (pruned_by m (N.of_nat n) x →
+    (pruned_at m (N.of_nat n) x →
        ∃ k, known m !! x = Some k ∧
             known (prune_from m n) !! x = Some (KI (kst k) false false)) ∧
-    (¬ pruned_by m (N.of_nat n) x → known (prune_from m n) !! x = known m !! x).
+    (¬ pruned_at m (N.of_nat n) x → known (prune_from m n) !! x = known m !! x).
   Proof.
     induction n as [|n IH]; intros m HI x.
     { split; [|done]. intros (i & Hi & _). lia. }
     cbn [prune_from].
-    assert (∀ P : Prop, (pruned_by m (N.of_nat (S n)) x →
+    assert (∀ P : Prop, (pruned_at m (N.of_nat (S n)) x →
               ∃ y, best_at m (N.of_nat n) = Some y ∧ has_body m y = true)) as Htop.
     { intros _ (i & Hi & _ & Hall). apply Hall. lia. }
     destruct (best_at m (N.of_nat n)) as [b|] eqn:Hb.
@@ -152,7 +157,7 @@ Section P.
     assert (∀ j y, best_at m j = Some y → j ≠ N.of_nat n → y ≠ b) as Hdist.
     { intros j y Hy Hj ->. apply Hj. rewrite <- (best_at_ht m j b HI Hy). by apply (best_at_ht m _ _ HI). }
     (* how the two notions of "pruned" relate *)
-    assert (pruned_by m (N.of_nat (S n)) x ↔ x = b ∨ pruned_by m2 (N.of_nat n) x) as Hiff.
+    assert (pruned_at m (N.of_nat (S n)) x ↔ x = b ∨ pruned_at m2 (N.of_nat n) x) as Hiff.
     { split.
       - intros (i & Hi & Hx & Hall).
         destruct (decide (i = N.of_nat n)) as [->|Hne]; [left; congruence|right].
@@ -168,7 +173,7 @@ Section P.
           destruct (Hall j) as (y & Hy & Hyb); [lia|]. rewrite Hba in Hy.
           exists y. split; [done|]. destruct (has_body m y) eqn:E; [done|].
           by rewrite (Hbmono y E) in Hyb. }
-    assert (¬ pruned_by m2 (N.of_nat n) b) as Hnb.
+    assert (¬ pruned_at m2 (N.of_nat n) b) as Hnb.
     { intros (i & Hi & Hx & _). rewrite Hba in Hx.
       eapply (Hdist i b); eauto. lia. }
     destruct (IH m2 HI2 x) as [IH1 IH2]. split.
@@ -179,7 +184,7 @@ Section P.
       + destruct (IH1 Hp) as (k & Hk & Hk'). exists k. split; [|done].
         assert (x ≠ b) as Hne by (intros ->; done).
         unfold m2 in Hk. by rewrite prune_block_lookup, decide_False in Hk.
-    - intros Hnp. assert (x ≠ b ∧ ¬ pruned_by m2 (N.of_nat n) x) as [Hne Hnp2].
+    - intros Hnp. assert (x ≠ b ∧ ¬ pruned_at m2 (N.of_nat n) x) as [Hne Hnp2].
       { split; [intros ->|intros ?]; apply Hnp, Hiff; auto. }
       rewrite (IH2 Hnp2). unfold m2. by rewrite prune_block_lookup, decide_False.
   Qed.
@@ -192,14 +197,16 @@ Section P.
          ∃ k, known m !! x = Some k ∧ known (prune m h) !! x = Some (KI (kst k) false false)) ∧
       (¬ pruned_by m h x → known (prune m h) !! x = known m !! x).
   Proof.
-    intros HI. split; [apply prune_from_best|]. intros x. unfold prune.
-    pose proof (prune_from_spec (N.to_nat h) m HI x) as H. by rewrite N2Nat.id in H.
+    intros HI. split; [apply prune_from_best|]. intros x. unfold prune, pruned_by.
+    pose proof (prune_from_spec (N.to_nat (N.min h (N.of_nat (length (best m))))) m HI x) as H.
+    by rewrite N2Nat.id in H.
   Qed.
 
   Lemma prune_keeps_states_headers m h x :
     has_state (prune m h) x = has_state m x ∧ has_hdr (prune m h) x = has_hdr m x.
   Proof.
-    split; [|apply prune_from_hdr]. unfold prune. generalize (N.to_nat h). intros n.
+    split; [|apply prune_from_hdr]. unfold prune.
+    generalize (N.to_nat (N.min h (N.of_nat (length (best m))))). intros n.
     revert m. induction n as [|n IH]; intros m; cbn [prune_from]; [done|].
     destruct (best_at m (N.of_nat n)); [|done]. destruct (has_body m n0); [|done].
     by rewrite IH, prune_block_state.
@@ -662,14 +669,6 @@ End T.
 
 Lemma prune_preserves_inv U m h : MInv U m → MInv U (prune m h).
 Proof. apply MInv_prune_from. Qed.
-
-(** PruneBlocks(h) with h above tip height + 1 removes nothing at all: the loop starts
-    at BestIndex(h-1), which does not exist, and stops *)
-Lemma prune_beyond_tip_noop m h : N.of_nat (length (best m)) < h → prune m h = m.
-Proof.
-  intros Hh. unfold prune. destruct (N.to_nat h) as [|n] eqn:E; [done|]. cbn [prune_from].
-  unfold best_at. destruct (N.ltb_spec (N.of_nat n) (N.of_nat (length (best m)))); [lia|done].
-Qed.
 
 (** * Examples (non-vacuity) and the boundary case *)
 Module ExP.
